@@ -34,11 +34,28 @@ func checkC09(p *Program, r *Report) {
 	r.Explanation = "Decided structural necessary conditions of exact neighbours, for every trie and query: (map) Search returns, position by position, the leaf value of the left / equal / right id of the three-way descent exactly when that id is not -1 and nil otherwise — no id is dropped, swapped or looked up through another function; (extremes) the bounds the descent uses to accept a left or right neighbour candidate are, as normalised terms over (Inners, from, to) of the session, the very child ids the extreme-leaf walks follow: first child = rank(Inners, from) + 1 as in the left-most walk, last child = rank(Inners, to-1) + bit(to-1) as in the right-most walk — one definition of a node's first and last child; (route) the neighbour ids are finished by the right-most walk on the left candidate and the left-most walk on the right candidate."
 	r.NotCovered = "Which candidate is chosen at each level, the comparisons with stored prefixes and tails, and everything that depends on rank values and key bytes at run time — i.e. most of the property. Filter-mode false positives on absent keys are by design."
 	r.Trusted = []string{"go/ssa", "openacid/low/bitmap.Rank128 (inlined symbolically)"}
+	checkDescentNeighboursAs(p, r, "C09")
+	checkCodecsAs(p, r, "C09")
+	r.Explanation += " (capacity) presence bitmaps of the value array cover every leaf ordinal (rule shared with C01)."
+	checkCapacity(p, r, "C09.capacity")
+}
+
+// checkDescentNeighboursAs: the neighbour rules of the three-way descent (map, extremes, route,
+// candidates) under the name of a property that rests on that descent: C09 (Search) and C02 (RangeGet on
+// a key that was de-duplicated away returns the value of the left neighbour found by the same descent
+// and finished by the right-most walk).
+func checkDescentNeighboursAs(p *Program, r *Report, pfx string) {
+	saved := r.curRule
+	defer func() {
+		if pfx != "C09" {
+			r.curRule = saved
+		}
+	}()
 	search := p.Method(p.Trie, "SlimTrie", "Search")
-	r.Rule("C09.map", "E11", "Search maps the three ids to the three results", 1)
-	r.Rule("C09.extremes", "E6", "one definition of a node's first and last child", 2)
-	r.Rule("C09.route", "call graph", "left candidate -> right-most walk, right candidate -> left-most walk", 1)
-	r.Rule("C09.candidates", "CFG dominance", "a child id becomes a neighbour candidate only inside the node's child range", 2)
+	r.Rule(pfx+".map", "E11", "Search maps the three ids to the three results", 1)
+	r.Rule(pfx+".extremes", "E6", "one definition of a node's first and last child", 2)
+	r.Rule(pfx+".route", "call graph", "left candidate -> right-most walk, right candidate -> left-most walk", 1)
+	r.Rule(pfx+".candidates", "CFG dominance", "a child id becomes a neighbour candidate only inside the node's child range", 2)
 	setRule := func(name string) {
 		for _, ri := range r.Rules {
 			if ri.Name == name {
@@ -46,7 +63,7 @@ func checkC09(p *Program, r *Report) {
 			}
 		}
 	}
-	setRule("C09.map")
+	setRule(pfx + ".map")
 	if search == nil {
 		r.Unk("(*trie.SlimTrie).Search", "", "anchor not found")
 		return
@@ -118,7 +135,7 @@ func checkC09(p *Program, r *Report) {
 	}
 
 	// ---- extremes: walks
-	setRule("C09.extremes")
+	setRule(pfx + ".extremes")
 	type walk struct {
 		f      *ssa.Function
 		next   string // canonical term of the next node id
@@ -301,7 +318,7 @@ func checkC09(p *Program, r *Report) {
 		r.Check(okHigh, "upper bound of neighbour candidates in "+shortFn(descent), p.Pos(descent.Pos()), "the last child id the right-most walk follows: "+abbreviate(last.next),
 			fmt.Sprintf("the descent accepts candidates <= %v but %s follows %s", abbreviate(strings.Join(sortedKeys(highs), " | ")), shortFn(last.f), abbreviate(last.next)))
 		// ---- route: the value returned at position 0 comes from the last-child walk, position 2 from the first-child walk
-		setRule("C09.route")
+		setRule(pfx + ".route")
 		var bad []string
 		n := 0
 		for _, ret := range returnsOf(descent) {
@@ -328,12 +345,9 @@ func checkC09(p *Program, r *Report) {
 		// ---- candidates: a child id (rank-derived) that flows into the left (right) result is assigned
 		// only under a comparison with the node's first (last) child id: the id before the first child
 		// belongs to another node, the id after the last child to the next node.
-		setRule("C09.candidates")
+		setRule(pfx + ".candidates")
 		checkNeighbourCandidates(p, r, descent, first.f, last.f)
 	}
-	checkCodecsAs(p, r, "C09")
-	r.Explanation += " (capacity) presence bitmaps of the value array cover every leaf ordinal (rule shared with C01)."
-	checkCapacity(p, r, "C09.capacity")
 }
 
 // checkNeighbourCandidates: see C09.candidates.
